@@ -343,6 +343,75 @@ PROPS['C06'] = dict(
                       'wb:capacity/1', 'wb:moved/0'],
 )
 
+c12 = B('c12_mutation', 'c12_mutation.cpp', 'asan')
+PROPS['C12'] = dict(
+    title='The mutation API behaves like plain ordered containers',
+    units=[
+        U(c12, 'rc', 1200, 60000, wq=6, wt=8, label='c12-rc'),
+        U(c12, 'prng', 5000, 400000, wq=8, wt=8, label='c12-prng'),
+    ],
+    rule='cases: operation sequences (1..210 steps, generated and shrunk as one value) over 3 documents, pool or freeing '
+         'allocator: Set null/bool/int64/uint64/double/string(copied|constant)/array/object on any node, AddMember (copyKey '
+         'on/off, duplicate keys only while no map may exist, bursts across the 16->24->36 capacity steps), RemoveMember '
+         '(first/last/random/absent), EraseMember (empty/single/prefix/suffix/full), MemberReserve, CreateMap, DestroyMap, '
+         'PushBack (bursts), PopBack, Erase (iterator / iterator range / index range), Reserve, Clear, child assignment, '
+         'CopyFrom (same/other document, copyString on/off, disjoint source), move-assign (from a disjoint node, from an own '
+         'descendant), Swap. Oracle: model (array = vector, object = vector of pairs, RemoveMember moves the last pair into '
+         'the hole) compared after EVERY step through the accessor walk; Size/Empty/Capacity>=Size/Back/operator[]/FindMember '
+         '(view and pointer+length; first match when no map)/HasMember/absent key -> null node/AtPointer/iterators/returned '
+         'iterators; Dump denotes the model; a quarter of the sequences run with CreateMap disabled (map transparency: both '
+         'variants must match the same model). Non-trivial: sequence contains a map interleaving, a growth step, a move or a copy.',
+    min_evaluations=dict(quick=8000, thorough=200000),
+    required_classes=['event:remove-tail-with-map', 'event:erase-full-range', 'event:growth-from-0', 'event:move-from-own-descendant',
+                      'event:member-growth-across-capacity', 'event:array-growth-across-capacity', 'event:erase-members-with-map',
+                      'event:copy-same-doc', 'alloc:pool', 'alloc:freeing', 'maps:off(transparency run)'],
+    technique='stateful model-based property testing (rapidcheck-shrunk operation sequences + seeded PRNG) against an executable container model',
+)
+
+c13 = B('c13_ownership', 'c12_mutation.cpp', 'asan', defines=['-DVF_C13'])
+PROPS['C13'] = dict(
+    title='Every allocation is released exactly once and copies are independent',
+    units=[
+        U(c13, 'rc', 1200, 60000, wq=6, wt=8, label='c13-rc'),
+        U(c13, 'prng', 5000, 400000, wq=8, wt=8, label='c13-prng', asan_options=FILL % 0x0c),
+    ],
+    rule='cases: the C12 operation language on documents using a tracking allocator (kNeedFree, every Realloc moves, freed blocks '
+         'poisoned), extended with document operations (1 step in 5): move-construct, move-assign, Swap, Parse of valid and '
+         'mutated texts, ParseOnDemand (hit and miss), ParseSchema of valid and invalid texts, destroy-and-recreate. Oracle: '
+         'ledger after every step (no free of a block the allocator does not own = foreign/double free), model comparison after '
+         'every step (a stale or shared block shows as a wrong value: copies are mutated/destroyed independently), nothing live '
+         'in the ledger after the last owner is destroyed, ASan (use after free) and LSan (parser stacks) silent. Non-trivial: '
+         'sequence contains a failed parse, a ParseSchema, a map interleaving, a move or a copy.',
+    min_evaluations=dict(quick=8000, thorough=200000),
+    required_classes=['event:failed-parse-with-open-container', 'event:parse-schema-replacing-owned', 'event:parse-schema-invalid',
+                      'event:remove-tail-with-map', 'event:move-from-own-descendant', 'event:copy-other-doc', 'event:destroy-doc',
+                      'event:parse-on-demand'],
+    technique='stateful model-based property testing against a tracking-allocator ledger and a container model',
+)
+
+c19 = B('c19_schema', 'c19_schema.cpp', 'asan')
+PROPS['C19'] = dict(
+    title='ParseSchema updates exactly the members the existing document declares',
+    units=[
+        U(c19, 'rc', 2500, 80000, wq=4, wt=6, label='c19-rc'),
+        U(c19, 'prng', 30000, 2000000, wq=8, wt=10, label='c19-prng', asan_options=FILL % 0x0c),
+    ],
+    rule='cases: (existing value E, 1..3 valid texts T applied in sequence), duplicate-free, keys from a shared pool of 10 so that '
+         'declared / undeclared / omitted keys occur at every level; all 8x8 kind combinations (null, bool, number, string, '
+         'array, object, empty array, empty object) at the root and at matched keys, depth <= 6, arrays containing objects '
+         'whose keys collide with the existing keys; E built by Parse or through the mutation API; pool, freeing and tracking '
+         'allocators; texts with random layouts. Oracle: merge_schema() transcribed from the statement (E non-empty object met '
+         'by {}: unchanged or {} both accepted), compared through the accessor walk in order; no parse error; the document '
+         'serialises to its own value, deep-copies equal and destroys cleanly (ASan, ledger: no foreign/double free, nothing '
+         'live afterwards). evaluations counts every application. Non-trivial: both sides non-empty objects, or an array '
+         'arriving at an object.',
+    min_evaluations=dict(quick=50000, thorough=1500000),
+    required_classes=['root:obj<-obj', 'root:obj<-arr', 'root:empty-obj<-arr', 'key:obj<-arr', 'key:obj<-obj', 'key:str<-obj',
+                      'key:arr<-obj', 'array-with-object-into-object-node', 'repeated-application', 'alloc:tracking',
+                      'underspecified({} into non-empty object)'],
+    technique='model-based differential property testing (rapidcheck + seeded PRNG) against a merge model transcribed from the statement',
+)
+
 
 def tool_versions():
     out = {}
